@@ -69,6 +69,25 @@ def open_scenarios(case, d):
             a.metadata.accessmode = 'r+'
             a.accessmode = 'r'
             attempts(a, path)
+        elif kind == 'rmeta_mode':
+            # RaggedArray: the handle already says 'r', the metadata object's own mode was changed; assigning
+            # 'r' AGAIN must govern the metadata and both subarrays
+            ra = darr.asraggedarray(path, [[1.0, 2.0], [3.0]], accessmode='r', metadata={'a': 1})
+            ra.metadata.accessmode = 'r+'
+            ra.accessmode = 'r'
+            attempts(ra, path, isragged=True)
+        elif kind == 'rctx_switch':
+            # RaggedArray opened for writing by a context on a read-only handle; 'r' is assigned inside
+            ra = darr.asraggedarray(path, [[1.0, 2.0], [3.0], [4.0]], accessmode='r')
+            cm = ra.open_arrays(accessmode='r+'); cm.__enter__(); stack.append(cm)
+            ra.accessmode = 'r'
+            attempts(ra, path, isragged=True)
+            cm.__exit__(None, None, None)
+            ra.accessmode = 'r+'
+            try:
+                ra.append([7.0]); out['rplus_after'] = 'ok'
+            except Exception as e:
+                out['rplus_after'] = type(e).__name__
         elif kind == 'nested_rw':
             a = darr.asarray(path, np.arange(int(np.prod(shape)), dtype='int32').reshape(shape), accessmode='r')
             with a.open_array():
